@@ -5,6 +5,7 @@ package main
 
 import (
 	"fmt"
+	"os"
 	"go/token"
 	"go/types"
 	"sort"
@@ -501,7 +502,11 @@ func (t *Taint) scan(f *ssa.Function) {
 					continue
 				}
 				if o := t.of(a); o != nil {
-					if ok, _ := t.boundedAt(a, in.Block(), 0); !ok {
+					ok, why := t.boundedAt(a, in.Block(), 0)
+					if os.Getenv("STORCHECK_DEBUG_TAINT") != "" {
+						fmt.Fprintf(os.Stderr, "taint-arg %s -> %s.%s bounded=%v (%s) at %s\n", exprStr(a), fname(callee), p.Name(), ok, why, t.cfg.P.pos(in.Pos()))
+					}
+					if !ok {
 						t.params[p] = &origin{Desc: "argument " + p.Name() + " of " + fname(callee) + " called from " + fname(f), Pos: in.Pos(), Prev: o}
 						t.changed = true
 					}
@@ -567,8 +572,8 @@ func (t *Taint) scan(f *ssa.Function) {
 // taintedFieldNames lists the struct fields found to carry unbounded attacker-chosen integers.
 func (t *Taint) taintedFieldNames() []string {
 	var out []string
-	for fv := range t.fields {
-		out = append(out, fv.Pkg().Name()+"."+fv.Name())
+	for _, o := range t.fields {
+		out = append(out, o.Desc)
 	}
 	sort.Strings(out)
 	return out
